@@ -3,6 +3,7 @@
   specification's `YearlyInst` allows (`ylyCand_iff`), branch by branch of the combinations `YlySup` covers.
 -/
 import Echse.Lemmas.RrYlyRfc1
+set_option linter.unusedSimpArgs false
 namespace Echse.Lemmas.RrYlyRfc
 open Echse.Rrule Echse.Instant Echse.Spec.RrOk Echse.Lemmas.RrCandOk Echse.Spec.Rfc Echse.Lemmas.RrRfc
 open Echse.Lemmas.RrCandRfc Echse.Lemmas.RrYlyOk Echse.Spec.Cal Echse.Spec.RuleExt Echse.Lemmas.RrMlyRfc
